@@ -303,3 +303,11 @@ Definition run_draw_gen (mf : bool) (l : list ostate) (o : nopts) (script : list
         rr_ticks r;
         map (fun p => (Qnum p * 1000000000000 / Z.pos (Qden p))%Z) (rr_coins r) ]
   end.
+
+(* Mirror rebuild (C01, implementation-side oracle of tools/props/tree.py): the accepted tree of a
+   draw occupies [lo, lo + 2^d - 1]; started from its state s the tree builder re-creates it when
+   doubling j (0-based) goes forward iff the block of size 2^j, aligned from lo, that contains s is
+   the left half of its parent block, i.e. iff bit j of s - lo is 0.  These are the direction
+   words the harness `orbit` scripts for a rebuild (true = forward). *)
+Definition mirror_dirs (lo : Z) (d : nat) (s : Z) : list bool :=
+  map (fun j => Z.even ((s - lo) / 2 ^ Z.of_nat j)) (seq 0 d).
